@@ -81,6 +81,6 @@ Print Assumptions C11_gone_example.
 
 Theorem C11_quiescent : forall c ops ks,
   cfg_ok c -> Forall op_ok ops ->
-  c11q_eval (mkQ (map (fun k => dump_of (fst (run c srv_init (firstn k ops)))) ks)) = 0%nat.
+  c11q_eval (mkQ (map (fun k => dump_of (fst (run c srv_init (firstn k ops)))) ks) (map (fun _ => 0%nat) ks)) = 0%nat.
 Proof. exact C11_quiescent_lemma. Qed.
 Print Assumptions C11_quiescent.
